@@ -22,10 +22,16 @@ Inductive obs :=
    Enter (incl. the whole reconnect()) under rc.m as ONE action. *)
 Inductive robs := RO (o : obs) | RE (who : nat) (e : ev).
 
+(* [CPanic l]: a call of the history (TCP / UDP / Close / the constructor) did not come back with a
+   value: it panicked (recovered by the harness) or took the process down; [l] is the raw log up to
+   there.  Every call of the LTS ends in a [Ret] with one of the six return classes and [Close]
+   always returns, so such a history matches no run of the model whatever its log: it is a
+   disagreement by construction ([panicked_history_never_matches] below). *)
 Inductive case :=
 | CHist (l : list obs)
 | CRaw (l : list robs)
-| CClass.
+| CClass
+| CPanic (l : list robs).
 
 (* ---- decidable equalities *)
 Definition res_eqb (a b : res) : bool :=
@@ -317,7 +323,11 @@ Definition check (c : case) : bool :=
   | CHist l => accepts l
   | CRaw l => accepts (group l)
   | CClass => class_ok
+  | CPanic _ => false
   end.
+
+Lemma panicked_history_never_matches : forall l, check (CPanic l) = false.
+Proof. reflexivity. Qed.
 
 Definition mismatches (l : list case) : list nat := mism_from check 0 l.
 
